@@ -631,6 +631,63 @@ def build():
                    "self.running == old(self.running) and completions() == 0"), ONE_TASK],
          modifies=["self.tick_secs", "self.timer"], raises={})
 
+    # ---- control events of a timer: each entry is registered with the arguments of ITS OWN entry
+    ACTIONS1 = ("add", "jump", "pause", "change_tick_interval", "start")
+    ACTIONS2 = ("reset", "restart", "stop", "start", "subtract")
+    VALUED = ("add", "subtract", "jump", "pause", "set_tick_interval")
+
+    def control_entries(I, name):
+        a1 = ACTIONS1[I.ctx.fork(len(ACTIONS1))]
+        a2 = ACTIONS2[I.ctx.fork(len(ACTIONS2))]
+        ents = []
+        for i, a_ in enumerate((a1, a2)):
+            ents.append(I.new_dict((("action", VStr(a_)), ("event", VStr("ctl_event%d" % i)),
+                                    ("value", VOpaque("Template", z3.Const("ctl_value%d" % i, usort("Template"))))),
+                                   "%s[%d]" % (name, i)))
+        I.__dict__["c13_ctl"] = (a1, a2)
+        return I.new_list(ents, name)
+
+    def add_ctl_handler(I, env, a, k):
+        emit(I, "ctl.add_handler", event=a[0], handler=a[1], kwargs=dict(k))
+        return VOpaque("HandlerKey", z3.Const(I.fresh_name("hkey"), usort("HandlerKey")))
+    C.ext("EventManager.add_handler", model=add_ctl_handler, trusted_reason="event registration (C01)")
+    C.classes["Timer"].fields["event_keys"] = Seq(Opaque("HandlerKey"))
+    C.classes["Timer"].fields["config"] = Rec(tick_interval=Opaque("Template"))
+
+    def own_args(I):
+        acts = I.__dict__.get("c13_ctl")
+        evs = events_named(I, "ctl.add_handler")
+        if acts is None or len(evs) != 2:
+            return VBool(False)
+        this = I.frames[0].env["self"].ref
+        conj = []
+        for i, (act, e) in enumerate(zip(acts, evs)):
+            h = I.force(e.args["handler"])
+            want_method = act
+            ok = h.tag == "fn" and getattr(h, "kind", None) == "bound" and h.obj is this and h.name == want_method
+            kw = e.args["kwargs"]
+            val = VOpaque("Template", z3.Const("ctl_value%d" % i, usort("Template")))
+            if act in VALUED:
+                ok = ok and set(kw) == {"timer_value"}
+                conj.append(I.eq(kw.get("timer_value", NONE), val))
+            elif act == "change_tick_interval":
+                ok = ok and set(kw) == {"change"}
+                conj.append(I.eq(kw.get("change", NONE), val))
+            else:
+                ok = ok and not kw
+            conj.append(z3.BoolVal(bool(ok)))
+            conj.append(I.eq(e.args["event"], VStr("ctl_event%d" % i)))
+        return VBool(z3.And(conj))
+    C.helpers["registered_with_own_args"] = own_args
+    C.trace_helpers |= {"registered_with_own_args"}
+    C.fn("Timer._setup_control_events", params=dict(event_list=Init(control_entries)),
+         loops={0: LoopSpec(invariant=[], unroll=True)},
+         ensures=[("TC1: every control event calls the timer method of its action with the arguments of ITS OWN entry - the "
+                   "value for add / subtract / jump / pause / the interval actions, NONE for start / stop / reset / restart, "
+                   "whatever entry comes before it (a reset that inherits the value of the entry listed before it cannot "
+                   "be called)", "registered_with_own_args()")],
+         modifies=["self.event_keys"], raises={}, bounded="BOUNDED: two control event entries (25 action pairs)")
+
     def handle_info(I, cz, v, heap):
         out = {}
         for f, shape in (("live", Bool), ("when", Real), ("mine", Bool), ("dname", Str), ("dcb", Fn), ("dkw", KW)):
@@ -647,6 +704,7 @@ def build():
     C.finite_checks.append(common.native_demo_check(
         "c13_mode_delay_added_while_stopping.py",
         "a delay added to a mode's delay manager while the mode is stopping never fires once the mode has stopped"))
+    C.finite_checks.append(common.native_demo_check("c13_reset_event_after_valued_entry.py", "a reset control event listed after a valued entry resets the timer"))
     C.finite_checks.append(common.native_demo_check(
         "c13_stale_unpause_into_untimed_pause.py",
         "a timed pause followed by an untimed pause: the timer stays paused (no tick) until it is started again"))
